@@ -119,13 +119,18 @@ func runC05(c *harness.Ctx) {
 		frames = append(frames, mk(obfs4ref.MaxPacketPayload, 0))
 	}
 	j := t.Draw("at", k) // damaged frame index (0-based) among the first k
-	ops := []string{"flip-length", "flip-tag", "flip-body", "delete", "duplicate", "swap", "replay-earlier", "insert", "truncate-eof", "truncate-silence", "none"}
+	ops := []string{"flip-length", "flip-tag", "flip-body", "delete", "duplicate", "swap", "replay-earlier", "insert", "truncate-eof", "truncate-silence", "none", "swap-bodies", "dup-body"}
 	op := ops[t.Draw("op", len(ops))]
 	if op == "replay-earlier" && j == 0 {
 		op = "duplicate"
 	}
 	if op == "flip-body" && len(frames[j].wire) <= 18 {
 		op = "flip-tag"
+	}
+	if op == "swap-bodies" || op == "dup-body" {
+		// move only the sealed boxes and leave each 2-byte length prefix in its
+		// slot: needs two neighbouring frames of equal length (the tail has them)
+		j = k
 	}
 	c.Info["op"], c.Info["at_frame"], c.Info["frames"] = op, j, k
 	c.Feature("op-" + op)
@@ -180,6 +185,25 @@ func runC05(c *harness.Ctx) {
 				continue
 			}
 			emit(i)
+		}
+	case "swap-bodies", "dup-body":
+		for i := 0; i < j; i++ {
+			emit(i)
+		}
+		a, b := frames[j].wire, frames[j+1].wire
+		stream = append(stream, a[:2]...)
+		stream = append(stream, b[2:]...) // frame j's slot carries frame j+1's box
+		stream = append(stream, b[:2]...)
+		if op == "swap-bodies" {
+			stream = append(stream, a[2:]...)
+		} else {
+			stream = append(stream, b[2:]...)
+		}
+		for i := j + 2; i < len(frames); i++ {
+			emit(i)
+		}
+		for i := 0; i < 3; i++ {
+			stream = append(stream, mk(obfs4ref.MaxPacketPayload, 0).wire...)
 		}
 	case "replay-earlier":
 		e := t.Draw("earlier", j)
